@@ -12,6 +12,10 @@ def loopJson : LoopForm := ⟨false, true, true⟩
 def loopMessage : LoopForm := ⟨false, true, true⟩
 def asyncLoopJson : LoopForm := ⟨false, true, true⟩
 def asyncLoopMessage : LoopForm := ⟨false, true, true⟩
+def healthForm : HealthForm := ⟨true, true⟩
+def asyncHealthForm : HealthForm := ⟨true, true⟩
+def nodeTimeout : Bool := true
+def asyncNodeTimeout : Bool := true
 def filter : FilterForm := .requestedSubsetOfNode
 def asyncFilter : FilterForm := .requestedSubsetOfNode
 def fanOutOverTargets : Bool := true
